@@ -109,6 +109,21 @@ pub fn full_alphabet(c: u32, l: u32) -> Vec<Op> {
         vec![48, 2, 1, 2, 3],
         vec![0, 1],
         vec![38, 2, 300, 0, 0],
+        // every truncation of the extended-colour forms (index arithmetic on the parameter list)
+        vec![38],
+        vec![38, 2],
+        vec![38, 2, 10],
+        vec![38, 2, 10, 20],
+        vec![48, 5],
+        vec![48, 2, 10, 20],
+        vec![1, 38, 5],
+        // codes next to the documented ranges, all flags on / off
+        vec![99],
+        vec![109],
+        vec![39, 49],
+        vec![1, 3, 4, 5, 7, 9],
+        vec![22, 23, 24, 25, 27, 29],
+        vec![90, 107],
     ] {
         v.push(Op::Sgr(a));
     }
@@ -251,6 +266,32 @@ pub fn c09(c: &Collector, g: &mut Guard) {
             }
         },
     );
+    // "every reported cell has a fg/bg that is a documented colour name or a hexadecimal colour
+    // string": every single SGR code 0..=300 (and the indexed forms at the palette's edges), then
+    // the operations that put the cursor's colours into cells
+    let mut cb: Vec<Base> = Vec::new();
+    for b in bases.iter().filter(|b| b.columns >= 2).step_by((bases.len() / 3).max(1)).take(3) {
+        let mut lists: Vec<Vec<u32>> = (0..=300u32).map(|n| vec![n]).collect();
+        for n in [0u32, 4, 7, 8, 15, 16, 231, 232, 255, 256, 9999] {
+            lists.push(vec![38, 5, n]);
+            lists.push(vec![48, 5, n]);
+            lists.push(vec![38, 2, n, 0, 255]);
+        }
+        for a in lists {
+            let mut s2 = b.screen.clone();
+            let op = Op::Sgr(a);
+            if apply(&mut s2, &op).is_ok() {
+                let mut script = b.script.clone();
+                script.push(op);
+                cb.push(Base { columns: b.columns, lines: b.lines, script, screen: s2 });
+            }
+        }
+    }
+    c.count("colour_code_bases", cb.len() as u64);
+    sweep(c, &cb, |_| vec![Op::Draw("x".into()), Op::Ech(Some(1)), Op::El(Some(2)), Op::Ed(Some(2)), Op::Draw("\u{30a2}".into())], |c, t, local| {
+        local.count("colour_code_transitions");
+        invariant(c, "C09", "E2.colour-codes", t, local);
+    });
     let lb = large_bases(c, vec![Fill::F0, Fill::F1]);
     sweep(c, &lb, |b| full_alphabet(b.columns, b.lines), |c, t, local| {
         local.count("large_geometry_transitions");
@@ -326,6 +367,7 @@ pub fn c09(c: &Collector, g: &mut Guard) {
     g.need(c, "judged");
     g.need(c, "bfs_judged");
     g.need(c, "deccolm_roundtrips");
+    g.need(c, "colour_code_transitions");
 }
 
 // =====================================================================  C10
@@ -383,7 +425,13 @@ pub fn c10(c: &Collector, g: &mut Guard) {
     let gs = geoms(c);
     let mut spec = broad_spec(c, gs.clone());
     spec.stacks = vec![0];
-    let bases = gen_bases(c, &spec);
+    let mut bases = gen_bases(c, &spec);
+    // the dirty set is observable state: half of the base states start from a cleared set (a
+    // display() that creates rows as a side effect must not mark them)
+    for b in bases.iter_mut().step_by(2) {
+        b.screen.dirty.clear();
+        b.script.push(Op::ClearDirty);
+    }
     // (1) faithful + pure on every base state
     sweep(
         c,
@@ -2629,7 +2677,8 @@ pub fn c20(c: &Collector, g: &mut Guard) {
             Op::Draw("q\u{e9}".into()),
         ],
         if c.thorough() { 6 } else { 5 },
-        &|op| matches!(op, Op::Draw(_)),
+        // G0 / G1 hold what was designated: DECSC / DECRC / RIS inside the history are judged too
+        &|op| matches!(op, Op::Draw(_) | Op::SaveCursor | Op::RestoreCursor | Op::Reset),
     );
     // after every history of charset operations the drawn glyph must follow the model: the tree
     // judges the charset ops themselves; drawing is judged from every leaf by the sweeps above
